@@ -317,4 +317,91 @@ theorem C01_scale_and_origx_from_their_records (o : ReadOpts) (ho : o.onlyFirstM
   · show (match rowsFull _ with | some m => _ | none => _ : Option (List Flt) × List PDiag).1 = _
     split <;> simp_all
 
+/-! ### MTRIXn → the non-crystallographic transformations -/
+
+def mtrixOf (o : ReadOpts) (il : Nat × List Char) : Option (Nat × Nat × List Flt × Bool) :=
+  match lexLine il.2 (il.1 + 1) o.level o.onlyAtomicCoords with
+  | .ok (.mtrix r ser v given, _) => some (r, ser, v, given)
+  | _ => none
+
+/-- one MTRIXn record: the row of the transformation with its serial number is overwritten (and its "given" flag
+replaced), an unseen serial number opens a new transformation at the end -/
+def mtrixStep (ms : List (Nat × List (Option (List Flt)) × Bool)) (rec : Nat × Nat × List Flt × Bool) :
+    List (Nat × List (Option (List Flt)) × Bool) :=
+  match ms.findIdx? (·.1 == rec.2.1) with
+  | some i => ms.modify i fun (k, rows, _) => (k, setRow rows rec.1 rec.2.2.1, rec.2.2.2)
+  | none => ms ++ [(rec.2.1, setRow [none, none, none] rec.1 rec.2.2.1, rec.2.2.2)]
+
+theorem flushModel_mtrix (s : PState) : (flushModel s).mtrix = s.mtrix := by
+  unfold flushModel; split <;> (try split) <;> rfl
+
+theorem stepItem_mtrix (o : ReadOpts) (s : PState) (ctx : Nat × List Char) (item : LexItem) :
+    (stepItem o s ctx item).1.mtrix =
+      (match item with | .mtrix r ser v given => mtrixStep s.mtrix (r, ser, v, given) | _ => s.mtrix) := by
+  have hf := flushModel_mtrix s
+  cases item
+  case atom => simp only [stepItem]; (repeat' split) <;> rfl
+  case mtrix r ser v given =>
+    simp only [stepItem, mtrixStep]
+    split
+    next i h => rw [h]
+    next h => rw [h]
+  all_goals first
+    | (simp only [stepItem]; done)
+    | (simp only [stepItem]; (repeat' split) <;> first | rfl | exact hf | (simp [hf]; done))
+
+theorem stepLine_mtrix (o : ReadOpts) (s : PState) (il : Nat × List Char) (hs : s.stopped = false) :
+    (stepLine o s (il.1 + 1) il.2).mtrix = (mtrixOf o il).toList.foldl mtrixStep s.mtrix := by
+  unfold stepLine mtrixOf
+  rw [if_neg (by simp [hs])]
+  cases hl : lexLine il.2 (il.1 + 1) o.level o.onlyAtomicCoords with
+  | error e => simp
+  | ok p =>
+    obtain ⟨item, errs⟩ := p
+    have h3 := stepItem_mtrix o { s with errors := [] } (il.1 + 1, il.2) item
+    show (stepItem o { s with errors := [] } (il.1 + 1, il.2) item).1.mtrix = _
+    rw [h3]
+    cases item <;> rfl
+
+/-- **the MTRIX transformations of the structure come from the MTRIXn records alone**: the complete ones (all three
+rows given) among the transformations the records build up, in order of first appearance of their serial numbers
+(reading without only-first-model) -/
+theorem C01_mtrix_from_their_records (o : ReadOpts) (ho : o.onlyFirstModel = false) (lines : List (List Char)) :
+    (readPdbCore o lines).1.info.mtrix =
+      ((((List.range lines.length).zip lines).filterMap (mtrixOf o)).foldl mtrixStep []).filterMap
+        (fun m => (rowsFull m.2.1).map fun v => (m.1, v, m.2.2)) := by
+  have key : ∀ (zl : List (Nat × List Char)) (s : PState), s.stopped = false →
+      (zl.foldl (fun s (il : Nat × List Char) => stepLine o s (il.1 + 1) il.2) s).mtrix =
+        (zl.filterMap (mtrixOf o)).foldl mtrixStep s.mtrix := by
+    intro zl
+    induction zl with
+    | nil => intro s _; rfl
+    | cons x xs ih =>
+      intro s hs
+      have h1 := (stepLine_meta o ho s x hs).1
+      simp only [List.foldl_cons]
+      rw [ih _ h1, stepLine_mtrix o s x hs]
+      cases hh : mtrixOf o x <;> simp [hh]
+  have acc : ∀ (ms : List (Nat × List (Option (List Flt)) × Bool)) (a : List (Nat × List Flt × Bool) × List PDiag),
+      (ms.foldl (fun (acc : List (Nat × List Flt × Bool) × List PDiag) (m : Nat × List (Option (List Flt)) × Bool) =>
+        match rowsFull m.2.1 with
+        | some v => (acc.1 ++ [(m.1, v, m.2.2)], acc.2)
+        | none => (acc.1, acc.2 ++ [PDiag.mk .strictWarning "Invalid MATRIX definition" []])) a).1 =
+      a.1 ++ ms.filterMap (fun m => (rowsFull m.2.1).map fun v => (m.1, v, m.2.2)) := by
+    intro ms
+    induction ms with
+    | nil => intro a; simp
+    | cons m ms ih =>
+      intro a
+      simp only [List.foldl_cons]
+      rw [ih]
+      cases hr : rowsFull m.2.1 <;> simp [hr]
+  have hf := flushModel_mtrix (((List.range lines.length).zip lines).foldl
+    (fun s (il : Nat × List Char) => stepLine o s (il.1 + 1) il.2) ({} : PState))
+  have k := key ((List.range lines.length).zip lines) ({} : PState) rfl
+  unfold readPdbCore
+  simp only
+  rw [hf, k]
+  exact (acc _ _).trans (by simp)
+
 end PdbModel
